@@ -528,6 +528,14 @@ def activate(R):
         R.ob('C06.activate', 'activation under the permessage-deflate token', any(tx.endswith("== 'permessage-deflate'") and p
                                                                                 for (tx, p) in lits),
              'State.compression set under %s' % sorted(lits), func=q, node=s)
+        tok = [tx for (tx, p) in lits if tx.endswith("== 'permessage-deflate'") and p]
+        from .common import match_exact, guard_atom_sets
+        R.ob('C06.activate', 'activation depends on the reply alone', bool(tok) and match_exact(
+            guard_atom_sets(g, sn), [{(tok[0], True)}]),
+             'State.compression is set under %s: an extension the server accepted (offered through the compress option or '
+             'through a Sec-WebSocket-Extensions header the application added) is not enabled when the extra condition '
+             'fails, and the first compressed message is refused as "reserved bits set"' % sorted(lits), func=q, node=s,
+             construct='activation guard')
         sc = calls_to(R, g, 'stream.WebsocketStream.set_compression')
         same = False
         for (n2, c2) in sc:
